@@ -1398,40 +1398,90 @@ def _eofwm_ind_ok(o, n):
     return And_(sw, tid_eq(es[0]["args"][0], val(o.self._params.transaction_id)))
 
 
+def _eofwm_size_error(o):
+    """CFDP 4.6.1.2.9: more data was received than the EOF PDU announces"""
+    return o.self._params.fp.progress > o.eof_pdu.file_size
+
+
+def _size_error_cancels(o, n):
+    """File Size Error with the default fault table: one notice-of-cancellation callback, the transaction is cancelled with that
+    condition and goes to completion; nothing is emitted and the bookkeeping is untouched"""
+    return And_(declared(n, CC.FILE_SIZE_ERROR, "notice_of_cancellation_cb"), len(emitted(n)) == 0, len(inds(n)) == 0,
+                len(vfs_ops(n)) == 0, step_is(n.self, STEP.TRANSFER_COMPLETION),
+                eq(n.self._params.completion_disposition, CANCELED), Eq_(_fpar(n.self).condition_code, CC.FILE_SIZE_ERROR),
+                unchanged(o, n, "_params.fp.progress", "_params.fp.file_size_eof", "_params.acked_params.last_end_offset",
+                          "_params.acked_params.metadata_missing"),
+                z3.ForAll([TR.X], TR.view(trk(n.self), TR.X) == TR.view(trk(o.self), TR.X)),
+                n.self._pdus_to_be_sent.length() == o.self._pdus_to_be_sent.length())
+
+
+def _unless_size_error(f):
+    return lambda o, n, r: Implies_(Not_(_eofwm_size_error(o)), f(o, n, r))
+
+
 C("_handle_eof_without_previous_metadata", arg_types={**SELF, "eof_pdu": T.Obj(EofPdu)}, props=("C06", "C05", "C15", "C01"), result=None,
-  requires=REQ_INV + REQ_TRK + [("acked_busy", _busy_acked), ("pdu_wf", lambda o: pdu_wf(o.eof_pdu)),
-                                ("waiting_for_metadata", lambda o: step_is(o.self, STEP.WAITING_FOR_METADATA))],
-  modifies=EOFWM_MOD,
+  requires=REQ_INV + REQ_TRK + DEFAULT + [("acked_busy", _busy_acked), ("pdu_wf", lambda o: pdu_wf(o.eof_pdu)),
+                                          ("waiting_for_metadata", lambda o: step_is(o.self, STEP.WAITING_FOR_METADATA)),
+                                          # (part of the step invariant) what is known of the extent so far is covered by the progress
+                                          ("extent_covered_by_progress", lambda o: And_(
+                                              _ap(o.self).last_end_offset <= o.self._params.fp.progress,
+                                              opt(o.self._params.fp.file_size_eof, lambda s: s <= o.self._params.fp.progress, True)))],
+  modifies=EOFWM_MOD + ["self._params.completion_disposition", "self._params.finished_params.condition_code"],
   ensures=[
-      Clause("C01.eof_fields_stored", lambda o, n, r: And_(
+      # F13b (fixed): an EOF PDU that announces less than the data already seen is a File Size Error, not a new extent
+      Clause("C06.eof_smaller_than_received_data_is_a_file_size_error", lambda o, n, r: Implies_(
+          _eofwm_size_error(o), _size_error_cancels(o, n)), ("C06", "C10", "C14")),
+      Clause("C01.eof_fields_stored", _unless_size_error(lambda o, n, r: And_(
           opt(n.self._params.fp.crc32, lambda c: Eq_(c, o.eof_pdu.file_checksum), False),
           opt(n.self._params.fp.file_size_eof, lambda s: Eq_(s, o.eof_pdu.file_size), False),
-          n.self._params.fp.progress == o.eof_pdu.file_size), ("C01",)),
-      Clause("C06.whole_file_rerequested", lambda o, n, r: And_(
+          n.self._params.fp.progress == o.eof_pdu.file_size)), ("C01",)),
+      Clause("C06.whole_file_rerequested", _unless_size_error(lambda o, n, r: And_(
           B(_ap(n.self).metadata_missing),
           Implies_(o.eof_pdu.file_size > 0, z3.ForAll([TR.X], TR.view(trk(n.self), TR.X) == z3.And(0 <= TR.X, TR.X < o.eof_pdu.file_size))),
-          Implies_(o.eof_pdu.file_size == 0, z3.ForAll([TR.X], TR.view(trk(n.self), TR.X) == TR.view(trk(o.self), TR.X)))), ("C06",)),
-      Clause("C15.eof_recv_indication", lambda o, n, r: _eofwm_ind_ok(o, n), ("C15",)),
+          Implies_(o.eof_pdu.file_size == 0, z3.ForAll([TR.X], TR.view(trk(n.self), TR.X) == TR.view(trk(o.self), TR.X))))), ("C06",)),
+      Clause("C15.eof_recv_indication", _unless_size_error(lambda o, n, r: _eofwm_ind_ok(o, n)), ("C15",)),
       # C12: an EOF (cancel) finishes the transaction with the EOF's condition -- also when the Metadata PDU is missing
-      Clause("C12.eof_cancel_before_metadata", lambda o, n, r: Implies_(ne(o.eof_pdu.condition_code, CC.NO_ERROR), And_(
-          eq(n.self._params.completion_disposition, CANCELED), Eq_(_fpar(n.self).condition_code, o.eof_pdu.condition_code))), ("C12",)),
-      Clause("C03.eof_is_acknowledged", lambda o, n, r: _eof_ack_emitted(o, n), ("C03", "C02")),
-      Clause("C03.next_step_sends_the_eof_ack", lambda o, n, r: And_(
-          step_is(n.self, STEP.SENDING_EOF_ACK_PDU), n.self._pdus_to_be_sent.length() == o.self._pdus_to_be_sent.length() + 1), ("C03", "C02")),
-      Clause("C05.nothing_written", lambda o, n, r: len(vfs_ops(n)) == 0 and len(fault_cbs(n)) == 0, ("C05",)),
+      Clause("C12.eof_cancel_before_metadata", _unless_size_error(lambda o, n, r: Implies_(ne(o.eof_pdu.condition_code, CC.NO_ERROR), And_(
+          eq(n.self._params.completion_disposition, CANCELED), Eq_(_fpar(n.self).condition_code, o.eof_pdu.condition_code)))), ("C12",),
+             assumable=False),   # open finding F16: callers must not build on a clause the code does not meet
+      Clause("C03.eof_is_acknowledged", _unless_size_error(lambda o, n, r: _eof_ack_emitted(o, n)), ("C03", "C02")),
+      Clause("C03.next_step_sends_the_eof_ack", _unless_size_error(lambda o, n, r: And_(
+          step_is(n.self, STEP.SENDING_EOF_ACK_PDU), n.self._pdus_to_be_sent.length() == o.self._pdus_to_be_sent.length() + 1)), ("C03", "C02")),
+      Clause("C05.nothing_written", lambda o, n, r: len(vfs_ops(n)) == 0, ("C05",)),
+      Clause("C14.no_fault_otherwise", _unless_size_error(lambda o, n, r: len(fault_cbs(n)) == 0), ("C14", "C05")),
+      Clause("state.disposition_untouched_otherwise", _unless_size_error(lambda o, n, r: unchanged(
+          o, n, "_params.completion_disposition", "_params.finished_params.condition_code")), ("C06", "C10")),
+      Clause("state.size_error_cancels", lambda o, n, r: Implies_(_eofwm_size_error(o), And_(
+          step_is(n.self, STEP.TRANSFER_COMPLETION), eq(n.self._params.completion_disposition, CANCELED),
+          Eq_(_fpar(n.self).condition_code, CC.FILE_SIZE_ERROR),
+          unchanged(o, n, "_params.fp.progress", "_params.fp.file_size_eof", "_params.fp.crc32", "_params.acked_params.metadata_missing"),
+          z3.ForAll([TR.X], TR.view(trk(n.self), TR.X) == TR.view(trk(o.self), TR.X)),
+          n.self._pdus_to_be_sent.length() == o.self._pdus_to_be_sent.length())), ("C06", "C10")),
       Clause("queue.counter", lambda o, n, r: to_z3_int(n.self.states._num_packets_ready) == n.self._pdus_to_be_sent.length(), ("C06",)),
-      Clause("inv.tracker", lambda o, n, r: Implies_(Or_(o.eof_pdu.file_size > 0, isnone(o.self._params.fp.file_size_eof),
-                                                         Eq_(o.self._params.fp.file_size_eof, o.eof_pdu.file_size)),
-                                                     tracker_inv(n.self)), ("C06", "C10")),
+      Clause("inv.tracker", lambda o, n, r: tracker_inv(n.self), ("C06", "C10")),
   ],
-  effects={"user"}, modular=True)
+  effects={"user", "fault_cb"}, modular=True)
 
 
 # ==============================================================================================
 # C03: waiting for the missing Metadata PDU (deferred procedure stays serviced; progress resets the NAK count)
 # ==============================================================================================
 WMM_MOD = sorted(set(MD_MOD + FDWM_MOD + EOFWM_MOD + ["self._params.acked_params.nak_activity_counter",
-                                                     "self._params.acked_params.procedure_timer.expired"]))
+                                                     "self._params.acked_params.procedure_timer.expired",
+                                                     "self._params.completion_disposition",
+                                                     "self._params.finished_params.condition_code"]))
+
+
+def _wmm_fd_beyond_eof(o):
+    return opt(o.self._params.fp.file_size_eof, lambda fse: _hp(o).offset + _hp(o).file_data.length() > fse, False)
+
+
+def _size_error_cancels_wmm(o, n):
+    return And_(declared(n, CC.FILE_SIZE_ERROR, "notice_of_cancellation_cb"), len(emitted(n)) == 0, len(inds(n)) == 0,
+                len(vfs_ops(n)) == 0, step_is(n.self, STEP.TRANSFER_COMPLETION),
+                eq(n.self._params.completion_disposition, CANCELED), Eq_(_fpar(n.self).condition_code, CC.FILE_SIZE_ERROR),
+                unchanged(o, n, "_params.fp.progress", "_params.fp.file_size_eof", "_params.acked_params.last_end_offset"),
+                z3.ForAll([TR.X], TR.view(trk(n.self), TR.X) == TR.view(trk(o.self), TR.X)))
 
 
 def _wmm_pre(o):
@@ -1472,14 +1522,10 @@ C("_handle_waiting_for_missing_metadata", arg_types={**SELF, "packet_holder": T.
   props=("C03", "C04", "C06", "C10"), result=None,
   requires=REQ_INV + REQ_TRK + DEFAULT + [("waiting_for_metadata", _wmm_pre),
             ("names_together", lambda o: (_hp(o).dest_file_name is None) == (_hp(o).source_file_name is None) if _hp_is(o, MetadataPdu) else True),
-            # a File Data PDU lies within the file size announced by an EOF PDU received earlier (this step has no
-            # File Size Error check: finding F13c)
-            ("fd_within_eof_size", lambda o: (opt(o.self._params.fp.file_size_eof, lambda fse: _hp(o).offset + _hp(o).file_data.length() <= fse, True)
-                                              if _hp_is(o, _FD) else True)),
-            # a repeated EOF PDU announces the same file size as the first one
-            ("eof_size_consistent", lambda o: (And_(Or_(isnone(o.self._params.fp.file_size_eof), Eq_(
-                o.self._params.fp.file_size_eof, _hp(o).file_size)), _hp(o).file_size >= _ap(o.self).last_end_offset)
-                if _hp_is(o, EofPdu) else True)),
+            # (part of the step invariant) what is known of the extent so far is covered by the progress
+            ("extent_covered_by_progress", lambda o: And_(
+                _ap(o.self).last_end_offset <= o.self._params.fp.progress,
+                opt(o.self._params.fp.file_size_eof, lambda s: s <= o.self._params.fp.progress, True))),
             ],
   modifies=WMM_MOD,
   cond_frames=[("C10.other_pdus_are_ignored", lambda o: True if not (_hp_is(o, _FD) or _hp_is(o, MetadataPdu) or _hp_is(o, EofPdu)) else False,
@@ -1494,10 +1540,17 @@ C("_handle_waiting_for_missing_metadata", arg_types={**SELF, "packet_holder": T.
               _ap(n.self).nak_activity_counter == 0, opt(_ap(n.self).procedure_timer, lambda t: Not_(B(t.expired)), False)))
           if (_hp_is(o, MetadataPdu) or _hp_is(o, EofPdu)) else True), ("C04",)),
       Clause("C06.file_data_keeps_whole_extent_requested", lambda o, n, r: (
-          (lambda e: Implies_(_hp(o).file_data.length() > 0, z3.ForAll([TR.X], TR.view(trk(n.self), TR.X) == z3.And(
+          (lambda e: Implies_(And_(_hp(o).file_data.length() > 0, Not_(_wmm_fd_beyond_eof(o))), z3.ForAll([TR.X], TR.view(trk(n.self), TR.X) == z3.And(
               0 <= TR.X, TR.X < z3.If(e >= o.self._params.fp.progress, e, o.self._params.fp.progress)))))(
               _hp(o).offset + _hp(o).file_data.length())
           if _hp_is(o, _FD) else True), ("C06",)),
+      # F13c / F13b (fixed): File Data beyond the size of an EOF PDU received earlier, and an EOF PDU that announces less than the
+      # data already seen, are File Size Errors (default table: the transaction is cancelled) and never become part of the extent
+      Clause("C06.file_data_beyond_eof_size_is_a_file_size_error", lambda o, n, r: (
+          Implies_(_wmm_fd_beyond_eof(o), _size_error_cancels_wmm(o, n)) if _hp_is(o, _FD) else True), ("C06", "C10", "C14")),
+      Clause("C06.eof_smaller_than_received_data_is_a_file_size_error", lambda o, n, r: (
+          Implies_(o.self._params.fp.progress > _hp(o).file_size, _size_error_cancels_wmm(o, n)) if _hp_is(o, EofPdu) else True),
+          ("C06", "C10", "C14")),
       # F13: File Data arriving here after the EOF PDU (ranges already tracked) breaks the bookkeeping: excluded by the
       # precondition `extent_not_tracked`; without an EOF so far the invariants are kept
       Clause("inv.tracker", lambda o, n, r: Implies_(ne(n.self.states.state, IDLE), tracker_inv(n.self)), ("C10", "C06")),
@@ -1508,6 +1561,8 @@ C("_handle_waiting_for_missing_metadata", arg_types={**SELF, "packet_holder": T.
   ] + inv_clauses(("C03",)),
   raises=[RaiseClause("vfs.truncate_race", FileNotFoundError, when=lambda o: _hp_is(o, MetadataPdu), props=("C10",), modifies=WMM_MOD)],
   effects={"vfs", "user", "fault_cb", "timer"}, modular=True)
+# (executed inline so that the File Size Error branch of the EOF handler is seen with its callbacks)
+CONTRACTS[-1].inline_callees = {"DestHandler._handle_eof_without_previous_metadata"}
 
 
 # ==============================================================================================
@@ -1756,7 +1811,10 @@ def step_inv(h):
         Implies_(step_is(h, STEP.RECV_FILE_DATA_WITH_CHECK_LIMIT_HANDLING, STEP.SENDING_EOF_ACK_PDU, STEP.WAITING_FOR_MISSING_DATA),
                  And_(Not_(isnone(fp.crc32)), Not_(isnone(fp.file_size_eof)))),
         Implies_(B(ap.deferred_lost_segment_detection_active), And_(
-            Not_(isnone(fp.crc32)), Not_(isnone(ap.procedure_timer)), segments_tracked_up_to_last_end(h),
+            Not_(isnone(fp.crc32)), Not_(isnone(ap.procedure_timer)),
+            # (a repeated EOF PDU received while the Metadata PDU is still missing may announce a larger size: until the EOF ACK is
+            # out and the procedure is restarted, last_end_offset still is the old extent)
+            Implies_(step_is(h, STEP.WAITING_FOR_METADATA, STEP.WAITING_FOR_MISSING_DATA), segments_tracked_up_to_last_end(h)),
             Implies_(ne(h.states.state, IDLE), step_is(h, STEP.WAITING_FOR_METADATA, STEP.WAITING_FOR_MISSING_DATA, STEP.SENDING_EOF_ACK_PDU,
                                                       STEP.TRANSFER_COMPLETION, STEP.SENDING_FINISHED_PDU, STEP.WAITING_FOR_FINISHED_ACK)))),
         Implies_(And_(step_is(h, STEP.SENDING_EOF_ACK_PDU), B(ap.metadata_missing)), And_(
